@@ -17,6 +17,8 @@ CLAIMS = {
              note='reals instead of doubles on symbolic data; dims<=3, depth<=3; five history classes; symbolic x limited to <=40 cells per configuration; Wavelet: coefficient overwrite symbolic, model values concrete; support clause at concrete probe points (all-point version is engine K)', tech=B),
  'C05': dict(engine='fpsym', text='the driver differentiates the expression of evaluate(x) exactly (polynomial, quotient, sqrt, cos/sin rules) and z3 bounds differentiate(x) minus that derivative over the interior of every path cell, for all values (or all members of the reproduced space) and, with transforms, the chain rule',
              note='reals instead of doubles; class interiors only (kinks and support edges are class boundaries); orders -1,1..5; dims<=3; <= 120 cells per configuration; Wavelet with concrete values; conformal maps excluded', tech=B),
+ 'C06': dict(engine='fpsym', text='binary write/read round trips of grids with symbolic values through the real stream code: shadows travel on a byte-offset tape, every observable of the restored grid is compared as an expression (z3), structure, byte identity of the second generation, stream consumption and behaviour of further operations are checked',
+             note='binary format only (ASCII is an un-counted concrete sanity pass: libstdc++ number formatting is not encoded); stringstream entry point; seven history classes; dims<=3; Wavelet with concrete values; primitive-level CBMC harnesses for IO::* not built', tech=B),
  'C07': dict(engine='fpsym', text='operation sequences of the real refinement/load/merge/clear API run with coordinate-tagged symbolic values, symbolic tolerances and scale corrections; value association is decided as symbol identity by z3, set invariants and the classic-criterion oracle are checked on every solver-constructed path class',
              note='reals instead of doubles; sequences of <= 5 operations enumerated as configurations; dims<=3, depth<=3; budgeted classes; Wavelet with concrete values; classic oracle only for Local Polynomial', tech=B),
  'C08': dict(engine='fpsym', text='level-limit vectors are derived from symbolic reals so z3 enumerates (and certifies) all vectors in {-1,0,1,2}^d; on each class the real make/update/refine/candidate calls run, every point must lie within the limits in force, limits must persist, and every call must return within the time bound',
